@@ -157,7 +157,10 @@ def local_rules(rep, root):
             rep.violation(f"accepted-illegal-package:{'+'.join(sorted(exp))}:{shape}", {"config": c, "main": src}, replay={"config": c})
         else:
             got = classify_diags(a.get("diags", []))
-            if not ({g for g in got if not g.startswith("other:")} & exp):
+            known = {g for g in got if not g.startswith("other:")}
+            if not known:
+                rep.coverage["rejections_whose_wording_is_not_recognised"] = rep.coverage.get("rejections_whose_wording_is_not_recognised", 0) + 1
+            elif not (known & exp):
                 rep.violation(f"rejected-for-unlisted-reason:{'+'.join(sorted(exp))}:{shape}", {"config": c, "got": sorted(got)}, replay={"config": c})
     return n
 
@@ -229,12 +232,19 @@ def run(tier, rep):
                 continue
             got = classify_diags(a.get("diags", []))
             known = {g for g in got if not g.startswith("other:")}
+            if not known:
+                # rejected with a diagnostic whose wording the keyword classifier does not know: the property asks for an error,
+                # not for a wording; counted, not judged
+                rep.coverage["rejections_whose_wording_is_not_recognised"] = rep.coverage.get("rejections_whose_wording_is_not_recognised", 0) + 1
+                agree += 1
+                continue
             if not (known & exp):
-                # rejected, but for a reason the model does not list
+                # rejected, but for a recognised reason the model does not list
                 rep.violation(f"rejected-for-unlisted-reason:{key}:got={'+'.join(sorted(got))[:80]}", {"config": cfg, "diags": [d["msg"] for d in a.get("diags", [])][:4]}, replay={"config": cfg})
                 continue
             agree += 1
     local_checked = local_rules(rep, root)
+    name_use(rep, root)
     rep.coverage["package_local_configurations"] = local_checked
     for c in cases[:2]:
         rep.sample({"config": c["config"], "main.gom": open(c["path"]).read()})
@@ -244,3 +254,143 @@ def run(tier, rep):
                         "three packages, one struct, one trait, <= 2 impls, one use site"]
     if agree < 100:
         raise ToolError("vacuity: fewer than 100 configurations agreed")
+
+
+# ---------------------------------------------------------------- NameUse.tla: every position where an item of another package can be named
+NU_B = """package B
+
+struct T { v: int32 }
+enum E { V(int32), W }
+trait Tr { fn m(Self) -> int32; }
+impl Tr for T { fn m(self: T) -> int32 { self.v } }
+impl Tr for int32 { fn m(self: int32) -> int32 { self } }
+impl T { fn mk() -> T { T { v: 3 } } }
+fn f(x: int32) -> int32 { x + 1 }
+fn get(t: T) -> int32 { t.v }
+"""
+NU_A = """package A
+import B
+
+fn make() -> B::T { B::T { v: 7 } }
+fn mke() -> B::E { B::E::V(5) }
+fn val(t: B::T) -> int32 { B::get(t) }
+fn mkvec() -> Vec[B::T] { let v: Vec[B::T] = vec_new(); vec_push(v, make()) }
+fn mkref() -> Ref[B::T] { ref(make()) }
+fn mkarr() -> [B::T; 1] { [make()] }
+fn mktup() -> (int32, B::T) { (1, make()) }
+fn mkfn() -> (B::T) -> int32 { val }
+"""
+NU_WRAP = {"bare": ("B::T", "A::make()"), "tuple": ("(int32, B::T)", "A::mktup()"), "vec": ("Vec[B::T]", "A::mkvec()"),
+           "fn-type": ("(B::T) -> int32", "A::mkfn()"), "array": ("[B::T; 1]", "A::mkarr()"), "ref": ("Ref[B::T]", "A::mkref()")}
+
+
+def nameuse_main(c):
+    w, v = NU_WRAP[c["wrap"]]
+    decl, body = [], []
+    p = c["pos"]
+    if p == "let-annotation":
+        body.append(f"let x: {w} = {v};")
+    elif p == "fn-parameter":
+        decl.append(f"fn h(x: {w}) -> int32 {{ 0 }}")
+        body.append(f"let n = h({v});")
+    elif p == "fn-result":
+        decl.append(f"fn h() -> {w} {{ {v} }}")
+        body.append("let x = h();")
+    elif p == "closure-parameter":
+        body.append(f"let g = |x: {w}| 0;")
+        body.append(f"let n = g({v});")
+    elif p == "struct-field":
+        decl.append(f"struct S {{ x: {w} }}")
+        body.append(f"let s = S {{ x: {v} }};")
+    elif p == "enum-payload":
+        decl.append(f"enum En {{ K({w}), Z }}")
+        body.append(f"let e = En::K({v});")
+    elif p == "impl-target":
+        decl.append("trait Loc { fn n(Self) -> int32; }")
+        decl.append(f"impl Loc for {w} {{ fn n(self: {w}) -> int32 {{ 0 }} }}")
+        body.append(f"let n = Loc::n({v});")
+    elif p == "trait-method-signature":
+        decl.append(f"trait Loc {{ fn n(Self, {w}) -> int32; }}")
+        decl.append(f"impl Loc for int32 {{ fn n(self: int32, x: {w}) -> int32 {{ self }} }}")
+        body.append(f"let n = Loc::n(1, {v});")
+    elif p == "extern-signature":
+        decl.append(f'extern "go" "somepkg" gofn(x: {w}) -> int32')
+        body.append(f"let n = gofn({v});")
+    elif p == "struct-literal":
+        body.append("let t = B::T { v: 1 };")
+    elif p == "constructor-expression":
+        body.append("let e = B::E::V(1);")
+    elif p == "constructor-pattern":
+        body.append("let n = match A::mke() { B::E::V(k) => k, _ => 0 };")
+    elif p == "struct-pattern":
+        body.append("let B::T { v } = A::make();")
+    elif p == "function-call":
+        body.append("let n = B::f(1);")
+    elif p == "function-value":
+        body.append("let g = B::f;")
+        body.append("let n = g(1);")
+    elif p == "trait-method-call":
+        body.append("let n = B::Tr::m(A::make());")
+    elif p == "trait-bound":
+        decl.append("fn gen[X: B::Tr](x: X) -> int32 { 0 }")
+        body.append("let n = gen(A::make());")
+    elif p == "dyn-type":
+        body.append("let d: dyn B::Tr = A::make();")
+    elif p == "impl-trait":
+        decl.append("struct Loc2 { a: int32 }")
+        decl.append("impl B::Tr for Loc2 { fn m(self: Loc2) -> int32 { self.a } }")
+        body.append("let l = Loc2 { a: 1 };")
+    elif p == "assoc-function":
+        body.append("let t = B::T::mk();")
+    elif p == "none":
+        body.append("let x = A::make();")
+        body.append("let n = A::val(x);")
+    else:
+        raise ValueError(p)
+    imp = "import A\n" + ("import B\n" if c["imported"] else "")
+    return "package Main\n" + imp + "\n" + "\n".join(decl) + ("\n" if decl else "") + "fn main() -> unit {\n    " + "\n    ".join(body) + "\n    ()\n}\n"
+
+
+def name_use(rep, root):
+    r = run_tlc("NameUse", "NameUse.cfg", workers=2, xmx="2g", timeout=600)
+    if not tlc_ok(r, "NameUse"):
+        rep.violation(f"model:NameUse:{r.violated}", {"trace": r.trace[-1:]})
+    cfgs = r.json_prints("NAMEUSE")
+    if len(cfgs) != r.distinct or len(cfgs) < 100:
+        raise ToolError("NameUse: unexpected number of configurations")
+    reqs = []
+    for i, c in enumerate(cfgs):
+        d = os.path.join(root, f"nameuse{i}")
+        for rel, t in (("main.gom", nameuse_main(c)), ("A/lib.gom", NU_A), ("B/lib.gom", NU_B)):
+            os.makedirs(os.path.dirname(os.path.join(d, rel)), exist_ok=True)
+            open(os.path.join(d, rel), "w").write(t)
+        reqs.append({"id": i, "path": os.path.join(d, "main.gom")})
+    answers = gv_parallel("compile", reqs)
+    verdict = {(c["pos"], c["wrap"], c["imported"]): (a, q) for c, a, q in zip(cfgs, answers, reqs)}
+    usable = unsupported = 0
+    for c in cfgs:
+        a, q = verdict[(c["pos"], c["wrap"], c["imported"])]
+        key = f"{c['pos']}:{c['wrap']}"
+        src = open(q["path"]).read()
+        if a["verdict"] in ("panic", "timeout"):
+            rep.violation(f"crash:name-use:{a.get('at')}", {"config": c, "msg": a.get("msg"), "main": src}, replay={"config": c})
+            continue
+        if c["imported"]:
+            # the construct itself must be one the language has: with the import it has to be accepted, otherwise this position
+            # (in this wrapping) is outside the language and says nothing about naming
+            if a["verdict"] != "ok":
+                unsupported += 1
+            continue
+        with_import, _ = verdict[(c["pos"], c["wrap"], True)]
+        if with_import["verdict"] != "ok":
+            continue
+        usable += 1
+        if c["legal"] and a["verdict"] != "ok":
+            rep.violation(f"rejected-legal-naming:{key}", {"config": c, "diags": [d_["msg"] for d_ in a.get("diags", [])][:4], "main": src}, replay={"config": c})
+        elif not c["legal"] and a["verdict"] == "ok":
+            rep.violation(f"accepted-name-of-a-package-that-is-not-imported:{key}", {"config": c, "main": src}, replay={"config": c})
+    rep.coverage["name_use_positions_judged"] = usable
+    rep.coverage["name_use_constructs_outside_the_language"] = unsupported
+    if usable < 40:
+        raise ToolError(f"vacuity: only {usable} naming positions could be judged")
+    return usable
